@@ -598,5 +598,30 @@ pub fn c13(c: &Case) {
             }
         }
     }
+    // planar scene: J3..J6 (almost) frozen, so sampling is two-dimensional, with a step that is large compared to the sampled region - random samples
+    // then regularly fall within one step of an existing tree vertex, and a box blocks the straight segment so that both trees must grow around it
+    {
+        let bx = |mn: [f32; 3], mx: [f32; 3]| { let p = |x: f32, y: f32, z: f32| nalgebra::Point3::new(x, y, z);
+            TriMesh::new(vec![p(mn[0], mn[1], mn[2]), p(mx[0], mn[1], mn[2]), p(mn[0], mx[1], mn[2]), p(mx[0], mx[1], mn[2]), p(mn[0], mn[1], mx[2]), p(mx[0], mn[1], mx[2]), p(mn[0], mx[1], mx[2]), p(mx[0], mx[1], mx[2])],
+                         vec![[0, 1, 2], [2, 1, 3], [4, 5, 6], [6, 5, 7], [2, 3, 6], [6, 3, 7], [0, 1, 4], [4, 1, 5], [0, 2, 4], [4, 2, 6], [1, 3, 5], [5, 3, 7]]).unwrap() };
+        let e = 0.001; let lf = [-1.2, 0.2, -e, -e, -e, -e]; let lt = [1.2, 1.5, e, e, e, e];
+        let mut pp = p; pp.a1 = 0.15; pp.a2 = 0.0; pp.b = 0.0; pp.c1 = 0.55; pp.c2 = 0.825; pp.c3 = 0.625; pp.c4 = 0.11; pp.offsets = [0.0; 6]; pp.sign_corrections = [1; 6]; pp.dof = 6;
+        let k = KinematicsWithShape::with_safety(pp, Constraints::new(lf, lt, 0.0), [cube(0.04), cube(0.04), cube(0.04), cube(0.04), cube(0.04), cube(0.04)], cube(0.1), Pose::identity(),
+            bx([-0.03, -0.03, -0.6], [0.03, 0.03, 0.0]), Pose::translation(0.0, 0.0, 0.6), vec![CollisionBody { mesh: bx([-0.25, -0.25, -0.25], [0.25, 0.25, 0.25]), pose: nalgebra::Isometry3::translation(1.3, 0.0, 0.9) }],
+            SafetyDistances { to_environment: 0.0, to_robot_default: -1.0, special_distances: HashMap::new(), mode: CheckMode::FirstCollisionOnly });
+        let (s, g) = ([-0.8, 1.3, 0.0, 0.0, 0.0, 0.0], [0.8, 1.3, 0.0, 0.0, 0.0, 0.0]); let step = 0.4;
+        if !k.collides(&s) && !k.collides(&g) {
+            let planner = RRTPlanner { step_size_joint_space: step, max_try: 2000, debug: false };
+            for _rep in 0..150 {
+                tried += 1; let stop = AtomicBool::new(false);
+                if let Ok(path) = planner.plan_rrt(&s, &g, &k, &stop) {
+                    nok += 1; maxlen = maxlen.max(path.len());
+                    if path.first() != Some(&s) || path.last() != Some(&g) { bad.push("planar scene: path does not join start to goal".into()); }
+                    for n in &path { if k.collides(n) { bad.push(format!("planar scene: path node {:?} is reported colliding", n)); } for j in 0..6 { if n[j] < lf[j] - 1e-12 || n[j] > lt[j] + 1e-12 { bad.push(format!("planar scene: node {:?} outside the limits", n)); } } }
+                    for w in path.windows(2) { let d: f64 = (0..6).map(|j| (w[0][j] - w[1][j]).powi(2)).sum::<f64>().sqrt(); if d > 3.0 * step + 1e-9 { bad.push(format!("planar scene: consecutive nodes {:.4} apart, more than three steps", d)); } }
+                } else { nerr += 1; }
+            }
+        }
+    }
     println!("plans_ok={} plans_err={} longest_path={}", nok, nerr, maxlen); println!("native_cases={}", tried); bad.dedup(); for b in bad.iter().take(5) { println!("diff={}", b); } println!("reproduced={}", !bad.is_empty());
 }
